@@ -237,15 +237,24 @@ structure Output where
 def scriptOccupied (args : Nat) : Option Nat := capBytes (args + SCRIPT_FIXED_BYTES)
 
 /-- `CellOutput::occupied_capacity(data_capacity)` in the code's order of additions -/
-def occupied (o : Output) (dataCap : Nat) : Option Nat := do
-  let c8 ← capBytes CAPACITY_FIELD_BYTES
-  let x ← safeAdd c8 dataCap
-  let l ← scriptOccupied o.lockArgs
-  let x ← safeAdd l x
-  let t ← (match o.typeArgs with
-    | none => some 0
-    | some a => scriptOccupied a)
-  safeAdd t x
+def occupied (o : Output) (dataCap : Nat) : Option Nat :=
+  match capBytes CAPACITY_FIELD_BYTES with
+  | none => none
+  | some c8 =>
+    match safeAdd c8 dataCap with
+    | none => none
+    | some x =>
+      match scriptOccupied o.lockArgs with
+      | none => none
+      | some l =>
+        match safeAdd l x with
+        | none => none
+        | some x =>
+          match (match o.typeArgs with
+            | none => some 0
+            | some a => scriptOccupied a) with
+          | none => none
+          | some t => safeAdd t x
 
 inductive CapV where
   | ok
